@@ -20,7 +20,7 @@ EXPLANATION = ('Taint of the option word (every use of the parameter along the l
                'call), sibling rules between the eager and lazy glyph loaders and between the file and callback faces (who may call '
                'the two Loader producers, who may write or read the cache cells), and the shared cmap routing rules.  That two '
                'faces produce identical segments is a run-time fact; these rules are the structural conditions for it.')
-FLOORS = {'OPTFLOW': 4, 'LOADERSIB': 4, 'LAZYACCESS': 8, 'FILESIB': 1, 'SELECTORS': 12, 'PLANEROUTE': 5}
+FLOORS = {'OPTFLOW': 4, 'LOADERSIB': 4, 'LAZYACCESS': 8, 'FILESIB': 1, 'SELECTORS': 12, 'PLANEROUTE': 8}
 
 OPT_CHAIN = [('gr_make_face_with_ops', 'faceOptions'), ('(anonymous namespace)::load_face', 'options'),
              ('graphite2::Face::readGlyphs', 'faceOptions'), ('graphite2::GlyphCache::GlyphCache', 'face_options')]
@@ -368,4 +368,5 @@ def run(run):
     filesib(run, fx)
     c13.selectors(run, fx)
     c13.planeroute(run, fx)
+    c13.segsearch(run, fx)       # the direct cmap searches without a range hint, the cached one with: both must find the same segment
     c13.cmapbound(run, fx)
